@@ -291,6 +291,10 @@ def oracle_seg(ctx, p, d, real, case, prefix=""):
                          dict(case, got=float(v).hex() if isinstance(v, float) else repr(v), expected=str(spec[k])[:40]))
         elif (p[3] >= 0 and d[3] >= 0 or k == "length") and not v >= 0:
             ctx.fail("C12:%s%s:negative" % (prefix, k), "%s is negative" % k, case)
+    if rc == "in":
+        for k in ("dist_pd", "dist_dp"):          # Point3DWithDiam.distance_to, both directions
+            if k in real and not ("ok" in real[k] and close(real[k]["ok"], spec["length"])):
+                ctx.fail("C12:distance_to:value", "distance_to is not the Euclidean distance: %s vs %s" % (canon_res(real[k]), +spec["length"]), case)
     return spec
 
 
